@@ -48,7 +48,8 @@ def vectors_from_gram_matrix(gram: np.ndarray) -> list[np.ndarray]:
     # If matrix is PD, can do Cholesky decomposition:
     try:
         decomp = np.linalg.cholesky(gram)
-        return [decomp[i][:] for i in range(dim)]
+        # gram = decomp @ decomp^dagger, so the vectors are the columns of decomp^dagger (conjugated rows of decomp).
+        return [decomp[i][:].conj() for i in range(dim)]
     # Otherwise, need to do eigendecomposition:
     except np.linalg.LinAlgError:
         print("Matrix is not positive semidefinite. Using eigendecomposition as alternative.")
